@@ -219,6 +219,12 @@ def dispatch (op : String) (a : Args) : Option String :=
   | "kk" => do pure (jE a (kk val (← a.nat "k") (← a.items "items")))
   | "ckk" => do
       pure (jE a (ckkF val nmOf (← a.nat "k") (← a.bool "contents") (← a.items "items") FUEL))
+  | "ckk_trace" => do
+      let r := ckkFT val nmOf (← a.nat "k") (← a.bool "contents") (← a.items "items") FUEL
+      let jI (i : Int) : String := toString i
+      pure ("{\"result\":" ++ jE a r.1 ++ ",\"trace\":" ++
+        jList (fun (e : Nat × List Nat × Option Int) => "[" ++ toString e.1 ++ "," ++ jNats e.2.1 ++ "," ++
+          (match e.2.2 with | some b => jI b | none => "null") ++ "]") r.2 ++ "}")
   | "ckkgen" => do
       let bound : Option Nat ← match (← a.get "bound") with
         | "inf" => pure none
